@@ -56,7 +56,12 @@ func (c *Chain) ProjectGenesis(appState []byte) (M, error) {
 		return nil, err
 	}
 	dids := []any{}
+	gfill := 0
 	for k, d := range dg.Documents {
+		if c.Opts.Bulk > 0 && isIntactFiller(k, d, c.Opts.Bulk) {
+			gfill++
+			continue
+		}
 		name, known := didRev[k]
 		if d == nil {
 			junk = append(junk, "did:"+k+"=nil")
@@ -93,7 +98,7 @@ func (c *Chain) ProjectGenesis(appState []byte) (M, error) {
 			"creator": c.acctName(p.Creator), "owner": c.acctName(p.Owner), "at": absTime(p.CreatedAt.UnixNano())})
 	}
 	return M{"aol": M{"owners": owners, "topics": topics, "writers": writers, "records": records}, "did": dids, "denoms": denoms, "pnfts": pnfts,
-		"nDenoms": len(pg.Denoms), "nPnfts": len(pg.Pnfts), "junk": junk}, nil
+		"nDenoms": len(pg.Denoms), "nPnfts": len(pg.Pnfts), "junk": junk, "fillers": gfill}, nil
 }
 
 // concTime: abstract time index -> nanoseconds (-2 = no timestamp at all)
